@@ -112,7 +112,7 @@ theorem C09_tree_roundtrip (mm : MMX) (o : Opts) (hmm : MMJ mm) (n : SNode JRef)
   jdec_enc mm o hmm n h top decl via' hv
 
 /-- **Document-level round trip.**  References written as `{"eClass": …, "$ref": token}` and resolved once the tree
-    exists: the whole forest comes back (without uuids — `to_obj` does not hand them to the objects) with every reference
+    exists: the whole forest comes back (uuids included: `to_obj` keeps them on the objects since repair 41d1d7b; the model used to strip them, as the code did) with every reference
     on its original target, provided each token resolves in the loaded forest to the path it was written for. -/
 theorem C09_document (mm : MMX) (o : Opts) (hmm : MMJ mm) (render : Path → Str) (parse : Str → Option Path)
     (roots : List (SNode Path))
@@ -121,7 +121,7 @@ theorem C09_document (mm : MMX) (o : Opts) (hmm : MMJ mm) (render : Path → Str
     (hres : ∀ r ∈ roots, AllRefs (fun p =>
         resolveTok mm o parse (roots.map fun r => eff mm o true (mapT (tokenOf mm o render roots) r))
           (tokenOf mm o render roots p) = some p) r) :
-    (jEncodeDoc mm o render roots).bind (jDecodeDoc mm o parse) = some (stripUuidL (roots.map (eff mm o true))) :=
+    (jEncodeDoc mm o render roots).bind (jDecodeDoc mm o parse) = some (roots.map (eff mm o true)) :=
   jdoc_roundtrip mm o hmm render parse roots hwf hvalid hres
 
 /-- … and with fragment addressing (no uuids, no id attributes) nothing is left to assume about resolution. -/
@@ -131,7 +131,7 @@ theorem C09_document_fragment (mm : MMX) (o : Opts) (hmm : MMJ mm) (single : Boo
     (hwf : ∀ r ∈ roots, WFG mm (fun _ => True) r)
     (hrefs : ∀ r ∈ roots, AllRefs (fun p => (nodeAt roots p).isSome = true ∧ (∀ s ∈ p.segs, NameOK s.1 ∧ '#' ∉ s.1)) r) :
     (jEncodeDoc mm o (renderPath single) roots).bind (jDecodeDoc mm o parsePath)
-      = some (stripUuidL (roots.map (eff mm o true))) :=
+      = some (roots.map (eff mm o true)) :=
   jdoc_roundtrip_fragment mm o hmm single roots hu hid hsingle hwf hrefs
 
 /-- **Document level, every addressing mode.**  Whatever addresses a target — its uuid, the value of its id attribute, or
@@ -144,7 +144,7 @@ theorem C09_document_addressing (mm : MMX) (o : Opts) (hmm : MMJ mm) (hid : IdOK
     (hdist : ∀ q m q' m' k, (q, m) ∈ allNodes mm roots → (q', m') ∈ allNodes mm roots →
       k ∈ keysOf mm o m → k ∈ keysOf mm o m' → q = q') :
     (jEncodeDoc mm o (renderPath single) roots).bind (jDecodeDoc mm o parsePath)
-      = some (stripUuidL (roots.map (eff mm o true))) :=
+      = some (roots.map (eff mm o true)) :=
   jdoc_roundtrip_addr mm o hmm hid single roots hsingle hwf hrefs huuid hdist
 
 end JDoc
